@@ -62,13 +62,18 @@ def keys (d : Dict κ ν) : List κ := d.map (·.1)
 end Dict
 
 /-- insertion of `x` into an ascending duplicate-free list (nothing happens when `x` is there already) -/
-def insertAsc {α : Type} [LT α] [DecidableLT α] [DecidableEq α] (x : α) : List α → List α
+def insertAsc {α : Type} [DecidableEq α] (lt : α → α → Bool) (x : α) : List α → List α
   | [] => [x]
-  | y :: ys => if x < y then x :: y :: ys else if x = y then y :: ys else y :: insertAsc x ys
+  | y :: ys => if lt x y then x :: y :: ys else if x = y then y :: ys else y :: insertAsc lt x ys
 
-/-- Python's `sorted(set(l))` -/
-def sortedSet {α : Type} [LT α] [DecidableLT α] [DecidableEq α] (l : List α) : List α :=
-  l.foldl (fun acc x => insertAsc x acc) []
+/-- Python's `sorted(set(l))` for the order `lt` -/
+def sortedSet {α : Type} [DecidableEq α] (lt : α → α → Bool) (l : List α) : List α :=
+  l.foldl (fun acc x => insertAsc lt x acc) []
+
+/-- `<` on `int` -/
+def ltNat (a b : Nat) : Bool := decide (a < b)
+/-- `<` on `str` (code-point lexicographic) -/
+def ltStr (a b : Str) : Bool := decide (a < b)
 
 /-- distinct elements in order of first occurrence (one possible iteration order of `set(l)`) -/
 def distinctFirst {α : Type} [DecidableEq α] : List α → List α
@@ -89,7 +94,7 @@ abbrev IRow := Atom × Nat
 def backbone : List Str := Gen.backbone_atoms.map String.toList
 
 /-- `get_chains()`: `sorted(set(self.get('chainID')))` -/
-def getChains (t : List Atom) : List Str := sortedSet (t.map (·.chainID))
+def getChains (t : List Atom) : List Str := sortedSet ltStr (t.map (·.chainID))
 
 /-- `self.get('x,y,z,rowID,resName,name', chainID=chain)`: the rows of a chain in table order, with their rowIDs -/
 def chainRows (t : List Atom) (chain : Str) : List IRow :=
@@ -111,22 +116,14 @@ def startsWithH (n : Str) : Bool := n.head? == some 'H'
 
 /-! ### residue keys -/
 
-/-- `(chainID, resSeq, resName)` with Python's tuple order -/
-structure ResKey where
-  chain : Str
-  seq : Int
-  name : Str
-  deriving DecidableEq, Repr, Inhabited
+/-- the tuple `(chainID, resSeq, resName)` -/
+abbrev ResKey := Str × Int × Str
 
-def ResKey.lt (a b : ResKey) : Prop :=
-  a.chain < b.chain ∨ (a.chain = b.chain ∧ (a.seq < b.seq ∨ (a.seq = b.seq ∧ a.name < b.name)))
+/-- Python's `<` on such tuples (lexicographic) -/
+def ltRes (a b : ResKey) : Bool :=
+  ltStr a.1 b.1 || (decide (a.1 = b.1) && (decide (a.2.1 < b.2.1) || (decide (a.2.1 = b.2.1) && ltStr a.2.2 b.2.2)))
 
-instance : LT ResKey := ⟨ResKey.lt⟩
-
-instance : DecidableLT ResKey := fun a b =>
-  inferInstanceAs (Decidable (a.chain < b.chain ∨ (a.chain = b.chain ∧ (a.seq < b.seq ∨ (a.seq = b.seq ∧ a.name < b.name)))))
-
-def resKey (a : Atom) : ResKey := ⟨a.chainID, a.resSeq, a.resName⟩
+def resKey (a : Atom) : ResKey := (a.chainID, a.resSeq, a.resName)
 
 /-! ### get_contact_atoms -/
 
@@ -188,10 +185,10 @@ def extendToResidue (t : List Atom) (index1 : List Nat) (onlyBB : Bool) : List N
   let resA := distinctFirst dataA
   let out := resA.flatMap (fun k =>
     -- self.get('rowID' / 'name', chainID=chainID, resName=resName, resSeq=resSeq)
-    let rows := t.zipIdx.filter (fun r => decide (r.1.chainID = k.chain ∧ r.1.resName = k.name ∧ r.1.resSeq = k.seq))
+    let rows := t.zipIdx.filter (fun r => decide (r.1.chainID = k.1 ∧ r.1.resName = k.2.2 ∧ r.1.resSeq = k.2.1))
     if onlyBB then (rows.filter (fun r => decide (r.1.name ∈ backbone))).map (·.2)
     else rows.map (·.2))
-  sortedSet out
+  sortedSet ltNat out
 
 /-- `for chain in chainIDs: index_contact[chain] = f(index_contact[chain])` (KeyError when the key was never created) -/
 def mapChains (f : List Nat → List Nat) (chainIDs : List Str) (d : Dict Str (List Nat)) : Except Err (Dict Str (List Nat)) :=
@@ -208,7 +205,7 @@ def contactRun (t : List Atom) (a : ContactArgs) : Except Err (Dict Str (List Na
   if chainIDs.any (fun c => !chains.contains c) then throw Err.valueError
   let st := (combinations2 chainIDs).foldl (scanPair a t) { indexContact := [], pairs := [] }
   -- get uniques
-  let ic ← mapChains sortedSet chainIDs st.indexContact
+  let ic ← mapChains (sortedSet ltNat) chainIDs st.indexContact
   -- extend the list to entire residue
   let ic ← if a.extend then mapChains (fun l => extendToResidue t l a.bb) chainIDs ic else pure ic
   pure (ic, st.pairs)
@@ -236,7 +233,7 @@ def residueArgs (a : ContactArgs) : ContactArgs := { a with extend := false }
 def contactResidueSets (t : List Atom) (a : ContactArgs) : Except Err (Dict Str (List ResKey)) := do
   let contactAtoms ← contactSets t (residueArgs a)
   -- residue_contact[chain] = sorted(set(tuple(r) for r in self.get('chainID,resSeq,resName', rowID=contact_atoms[chain])))
-  pure (contactAtoms.map (fun e => (e.1, sortedSet ((rowsAt t e.2).map (fun r => resKey r.1)))))
+  pure (contactAtoms.map (fun e => (e.1, sortedSet ltRes ((rowsAt t e.2).map (fun r => resKey r.1)))))
 
 /-- body of `for iat1, atoms2 in atom_pairs.items()` -/
 def residuePairStep (t : List Atom) (d : Dict ResKey (List ResKey)) (e : Nat × List Nat) : Except Err (Dict ResKey (List ResKey)) :=
@@ -255,6 +252,6 @@ def contactResiduePairs (t : List Atom) (a : ContactArgs) : Except Err (Dict Res
   let atomPairs ← contactPairs t (residueArgs a)
   let rcp ← atomPairs.foldlM (residuePairStep t) []
   -- for resData in residue_contact_pairs.keys(): residue_contact_pairs[resData] = sorted(residue_contact_pairs[resData])
-  pure (rcp.map (fun e => (e.1, sortedSet e.2)))
+  pure (rcp.map (fun e => (e.1, sortedSet ltRes e.2)))
 
 end Model
